@@ -39,7 +39,12 @@ def opt_pass(rep, pid, tier):
         elif line.startswith(f"[{pid}]"):
             print(line.replace(f"[{pid}]", f"[{pid} -O]", 1), flush=True)
     if summary is None:
-        raise TLCError(f"the optimised pass of {pid} did not complete (rc={r.returncode}):\n{r.stdout[-1500:]}\n{r.stderr[-1500:]}")
+        # the optimised pass could not be completed (its own machinery failed - typically because the implementation
+        # produced observations of a shape the trace specification cannot even compare): that is no verdict; the ordinary
+        # legs that follow look at the same behaviour and report it properly
+        rep.log(f"optimised pass did not complete (rc={r.returncode}) - not counted; the ordinary legs follow")
+        rep.extra["optimised_pass"] = dict(completed=False, rc=r.returncode, tail=(r.stdout[-600:] + r.stderr[-600:]))
+        return
     rep.extra["optimised_pass"] = summary
 
 
